@@ -94,7 +94,13 @@ func cmdDrive(args []string) {
 			driveKernel(r, w, id, &cv)
 			continue
 		}
-		if *bits == 64 {
+		if *prof == "aggsparse" {
+			driveAggSparse(r, w, id, *bits, *maxAtoms, &cv)
+			continue
+		}
+		if r.Intn(6) == 0 {
+			u, gens = sparseKeysUniverse(r, *bits, *maxAtoms)
+		} else if *bits == 64 {
 			u, gens = randUniverse64(r, *maxAtoms)
 		} else if r.Intn(2) == 0 {
 			u, gens = edgeUniverse32(r, *maxAtoms)
@@ -435,6 +441,58 @@ func driveBurst(r *rand.Rand, w *bufio.Writer, id int, maxAtoms int, cv *coverOu
 // driveKernel: the container-kernel matrix. One chunk key (sometimes a second, adjacent one), operand A and B
 // drawn from the catalogue of boundary shapes, each realised as array / bitmap / run chunk by its recipe, then
 // every binary operation in every form and both operand orders on fresh copies.
+// driveAggSparse: aggregates over 3..4 bitmaps whose chunk (bucket) keys interleave sparsely over a key range wide
+// enough that a parallel work item spans several keys: every aggregate, lists in several orders, worker counts 1..3.
+func driveAggSparse(r *rand.Rand, w *bufio.Writer, id int, bits int, maxAtoms int, cv *coverOut) {
+	u, gens := sparseKeysUniverse(r, bits, maxAtoms)
+	e := newExec(u, w, id, r.Int63())
+	e.begin()
+	rc := []string{"R", "Ro", "M", "Rc", "Rok"}
+	if bits == 64 {
+		rc = recipes64
+	}
+	n := len(gens)
+	if n > 4 {
+		n = 4
+	}
+	for i := 0; i < n; i++ {
+		ga, bad := u.project(gens[i])
+		if bad != "" {
+			panic("generator is not a union of atoms: " + bad)
+		}
+		e.run(Call{Op: "Build", Dst: i + 1, As: ga, Rcp: pick(r, rc)})
+	}
+	ops := []string{"FastOr", "HeapOr", "ParOr", "ParHeapOr", "FastAnd", "ParAnd", "HeapXor"}
+	if bits == 64 {
+		ops = []string{"FastOr", "FastAnd", "ParOr"}
+	}
+	for _, op := range ops {
+		for rep := 0; rep < 2; rep++ {
+			xs := r.Perm(n)
+			for i := range xs {
+				xs[i]++
+			}
+			if rep == 1 && n > 3 && r.Intn(2) == 0 {
+				xs = xs[:3]
+			}
+			c := Call{Op: op, Dst: 5, Xs: xs}
+			if strings.HasPrefix(op, "Par") {
+				c.W = 1 + (rep+r.Intn(2))%3
+			}
+			e.run(c)
+		}
+	}
+	if bits != 64 {
+		e.run(Call{Op: "Clone", Dst: 6, X: 1})
+		e.run(Call{Op: "AndAny", X: 6, Xs: []int{2, 3}})
+	}
+	cv.Traces++
+	cv.Events += e.events
+	for k, v := range e.cover {
+		cv.Ops[k] += v
+	}
+}
+
 func driveKernel(r *rand.Rand, w *bufio.Writer, id int, cv *coverOut) {
 	var u *Universe
 	var ga, gb []int
